@@ -52,14 +52,22 @@ func vpAllLayoutsOverrun(typ int, b []byte) bool {
 	return vpAnd(req, reply)
 }
 
-func vpH_C19_detect__3(c int) {
-	typ := c + 1
-	secret := vpBytesN(vpInt(0, vpBound("secret", 2)))
-	nmax := vpBound("c19bytes", 10)
-	if typ == 2 {
-		nmax += vpBound("c19authorextra", 2) // room for argument-length octets behind the fixed part
+// c = (type - 1) + 3 * length class; class 0: body lengths 0..c19bytes, class k > 0 (authorization
+// only): exactly c19bytes + k bytes, room for argument-length octets behind the fixed part
+func vpH_C19_detect__9(c int) {
+	typ := c%3 + 1
+	class := c / 3
+	if class > 0 && (typ != 2 || class > vpBound("c19authorextra", 1)) {
+		return
 	}
-	clear := vpBytesN(vpInt(0, nmax))
+	secret := vpBytesN(vpInt(0, vpBound("secret", 2)))
+	nmax := vpBound("c19bytes", 8)
+	var clear []byte
+	if class == 0 {
+		clear = vpBytesN(vpInt(0, nmax))
+	} else {
+		clear = vpBytesN(nmax + class)
+	}
 	if typ == 2 && len(clear) > 7 {
 		vpAssume(clear[7] <= uint8(vpBound("c19args", 2)))
 	}
